@@ -450,7 +450,90 @@ def topo_factory(quick, seed):
     return h, judge
 
 
-HARNESSES = {"graphs": graphs_factory, "cflow": cflow_factory, "topo": topo_factory}
+# ------------------------------------------------------------------ accumulation patterns on ARRAY values
+# Scalars are immutable, so the graphs above cannot see how the backward pass owns / shares its accumulation buffers.  Here the
+# same chain rule runs on (2,) arrays through the shipped NumPy rules, over a skeleton  p = sin x, q = cos x, s = A (+|-) B  whose sum
+# node passes its cotangent through unchanged, and an output that adds up to k terms in every order and association.
+
+ACC_SKELETONS = ["p + q", "q + p", "x + p", "p + x", "p + p", "p - q", "np.add(q, p)", "(p + q) + x"]
+ACC_TERMS = {
+    "ss": "np.sum(s * s)", "s1": "np.sum(s)", "sp": "np.sum(s * p)", "p3": "np.sum(p * 3.0)", "q5": "np.sum(q * 5.0)", "pq": "np.sum(p * q)",
+    "sins": "np.sum(np.sin(s))", "xx": "np.sum(x * x)", "sxs": "np.sum((s + x) * s)",
+    "dd": "np.dot(s, s)",         # the same traced value in both slots of a bilinear primitive
+}
+
+
+def accum_factory(quick, seed):
+    import numpy as onp
+    import autograd
+    import autograd.numpy as anp
+    from .. import symref as S
+    kmax = 3 if quick else 4
+    x0 = onp.array([0.3 + 0.01 * (seed % 7), -1.2])
+
+    class _SymNp:
+        sin = staticmethod(S.sin)
+        cos = staticmethod(lambda a: S.Fn("cos", S.lift(a)))
+        sum = staticmethod(lambda a: a)
+        add = staticmethod(lambda a, b: a + b)
+        dot = staticmethod(lambda a, b: a * b)      # per component: the reference is evaluated one component at a time
+
+    def h(ch):
+        skel = ch.choose("s", ACC_SKELETONS)
+        k = ch.choose("nterms", list(range(1, kmax + 1)))
+        names = [ch.choose("term%d" % i, sorted(ACC_TERMS)) for i in range(k)]
+        assoc = ch.choose("assoc", ["left", "right"] if k > 2 else ["left"])
+        parts = [ACC_TERMS[t] for t in names]
+        if assoc == "left":
+            out = parts[0]
+            for t in parts[1:]:
+                out = "(%s + %s)" % (out, t)
+        else:
+            out = parts[-1]
+            for t in reversed(parts[:-1]):
+                out = "(%s + %s)" % (t, out)
+        src = "(lambda p, q: (lambda s: %s)(%s))(np.sin(x), np.cos(x))" % (out, skel)
+        f = eval("lambda x: " + src, dict(np=anp))
+        xv = S.Var("x")
+        want = [eval(src, dict(np=_SymNp, x=xv)).d("x").ev({"x": float(c)}) for c in x0]
+        obs = {}
+        x = x0.copy()
+        x.flags.writeable = False
+        with warnings.catch_warnings():
+            warnings.simplefilter("ignore")
+            try:
+                obs["rev"] = onp.asarray(autograd.grad(f)(x)).tolist()
+                vjp, _ = autograd.make_vjp(f)(x)
+                obs["vjp_twice"] = [onp.asarray(vjp(2.0)).tolist(), onp.asarray(vjp(1.0)).tolist()]
+                obs["fwd"] = [float(autograd.make_jvp(f)(x)(e)[1]) for e in onp.eye(2)]
+            except Exception as e:
+                obs["exc"] = "%s: %s" % (type(e).__name__, str(e)[:100])
+        return skel, names, assoc, src, want, obs
+
+    def judge(ch, out):
+        import numpy as onp
+        skel, names, assoc, src, want, obs = out
+        feats = dict(skeleton=skel, nterms=len(names), assoc=assoc)
+        res = dict(v=[], nontrivial=len(names) > 1, outcome=tuple(round(w, 9) for w in want), counts={},
+                   sample=dict(choices=list(ch.choices), program="lambda x: " + src, expected=want))
+        repro = "import autograd, autograd.numpy as np, numpy as onp\nf = lambda x: %s\nprint(autograd.grad(f)(onp.array(%r)), 'expected', %r)" % (src, x0.tolist(), want)
+        V = lambda mode, kind, got, w: res["v"].append(violation(PROP, "accum", "-", mode, kind, feats, ch.choices, dict(program=src), got, w, repro))
+        if "exc" in obs:
+            V("rev+fwd", "raised", obs["exc"], None)
+            return res
+        ok = lambda a, b: onp.allclose(a, b, rtol=1e-12, atol=1e-12)
+        if not ok(obs["rev"], want):
+            V("rev", "wrong-gradient", obs["rev"], want)
+        if not (ok(obs["vjp_twice"][0], [2 * w for w in want]) and ok(obs["vjp_twice"][1], want)):
+            V("rev", "pull-back-called-twice-differs", obs["vjp_twice"], want)
+        if not ok(obs["fwd"], want):
+            V("fwd", "wrong-gradient", obs["fwd"], want)
+        return res
+
+    return h, judge
+
+
+HARNESSES = {"graphs": graphs_factory, "cflow": cflow_factory, "topo": topo_factory, "accum": accum_factory}
 
 
 def run(ctx):
@@ -459,12 +542,14 @@ def run(ctx):
         run_harness(ctx, rep, __name__, "graphs", depth=6 if ctx.quick else 8, pool=pool)
         run_harness(ctx, rep, __name__, "cflow", depth=3, pool=pool)
         run_harness(ctx, rep, __name__, "topo", depth=4 if ctx.quick else 5, pool=pool)
+        run_harness(ctx, rep, __name__, "accum", depth=3, pool=pool)
     rep.add(bound="graphs n<=%d ops; cflow <=%d statements; toposort DAGs <=%d nodes, parent multisets <=3" % (
         (4, 2, 5) if ctx.quick else (5, 3, 6)),
         rule="graphs: every straight-line program over u,b (operands x/k/earlier, every output position), non-trivial = "
              ">=2 live ops or a multi-edge; cflow: every statement list over if/while/rec/closure x op x threshold x input, "
              "non-trivial = some branch/loop actually taken; topo: every parent-multiset DAG, non-trivial = >=3 reachable nodes")
-    rep.assumptions = ["scalar data; user primitives u,b registered through autograd.extend",
+    rep.assumptions = ["scalar data; user primitives u,b registered through autograd.extend (graphs/cflow); (2,) arrays through the shipped "
+                       "NumPy rules for the accumulation patterns (skeletons %r, <=%d terms from %r)" % (ACC_SKELETONS, 3 if ctx.quick else 4, sorted(ACC_TERMS)),
                        "reference = literal reverse sweep / dual numbers in plain Python (math module only)",
                        "tolerance 1e-12 relative"]
     return rep
